@@ -22,4 +22,8 @@ def units(tier):
 
 
 def runner_tasks(tier):
-    return []
+    return [{"module": "c03", "task": "sample", "kind": "bounded", "clause": "all outputs vs documented equations, in floats"},
+            {"module": "c07", "task": "energy_tables", "kind": "eval", "clause": "energy-dependent tables: nodes, clamping, interpolation axis"}]
+
+
+REPLAY = {'module': 'c03', 'task': 'replay'}
